@@ -17,3 +17,7 @@ def run(ctx):
     ctx.assumptions.append("server time = the virtual clock; one sweep per elapsed second; millisecond expiries and follower-side deferral are not modelled here")
     ctx.cov["rule"] = ("seeded sequences with expiries 1..65535 s / minutes / unlimited, updates that lengthen or shorten, re-locks, unlocks at every tick; monitor: EXPRIED in "
                        "[E, E+2] s (E+10 after a shortening update) of virtual time, unlimited never, hold gone after the notice")
+
+
+def replay(path):
+    return engine_common.replay_engine("C06", path)
